@@ -78,6 +78,47 @@ def run(ctx):
 
 # ------------------------------------------------------------------------------------------------------------------
 
+def _uniqueness_test(prog, fn, e, depth=1):
+    """If expression `e` (evaluated in fn) is the duplicate-free test of a slice — `X.iter().all(|t| seen.insert(t))`
+    over a fresh HashSet, written inline or inside a private helper that receives X (one level) — return str(X)."""
+    if e is None or e.k != "call":
+        return None
+    name, args = e.a[0], e.a[1]
+    if name == "Iterator::all" and len(args) == 2:
+        it, clo = args
+        if not (it.k == "call" and it.a[0] in ("[T]::iter", "IntoIterator::into_iter", "Iterator::copied") and len(it.a[1]) == 1):
+            return None
+        if clo.k != "closure":
+            return None
+        body = prog.fns.get(clo.a[0])
+        if body is None:
+            return None
+        ex = [str(x) for _, _, x in body.exits()]
+        m = re.match(r"^HashSet::insert\(\^(\w+), (\w+)\)$", ex[0]) if len(ex) == 1 else None
+        if not m:
+            return None
+        params = [body.locals[i + 1][1] for i in range(body.arg_count)]
+        if m.group(2) not in params:
+            return None
+        caps = dict(zip(clo.a[2], [str(x) for x in clo.a[1]])) if len(clo.a) > 2 else {}
+        if caps.get(m.group(1)) not in ("Default::default()", "HashSet::default()", "HashSet::new()"):
+            return None
+        return str(it.a[1][0])
+    cs = H.call_of_expr(e)
+    if depth > 0 and cs is not None:
+        tgts = prog.callees(cs)
+        if len(tgts) == 1 and tgts[0].arg_count == len(args):
+            g = tgts[0]
+            ex = [x for _, _, x in g.exits()]
+            if len(ex) == 1:
+                inner = _uniqueness_test(prog, g, ex[0], depth - 1)
+                if inner is not None:
+                    for i in range(g.arg_count):
+                        if g.locals[i + 1][1] == inner:
+                            return str(args[i])
+    return None
+
+
 def _validated_path(ctx, prog):
     n = 0
     for nm, sl in (("primary", "primary_swap_path"), ("secondary", "secondary_swap_path")):
@@ -85,16 +126,18 @@ def _validated_path(ctx, prog):
         if f is None:
             continue
         oks = H.ok_exits(f)
-        ALL = r"^Iterator::all\(\[T\]::iter\(SwapActionParams::%s\(self\)\), closure<gmsol_utils::swap::SwapActionParams::validated_%s_swap_path::\{closure#0\}>\)$" % (sl, nm)
-        a = len(oks) >= 1 and all(H.guarded(f, bb, ALL, True) and str(e) == "Result::Ok{0: SwapActionParams::%s(self)}" % sl for bb, e in oks)
-        cl = prog.closures_of(f)
-        b = len(cl) == 1 and [str(e) for _, _, e in cl[0].exits()] == ["HashSet::insert(^seen, token)"]
-        cap = _captures(f, "::{closure#0}") or {}
-        c = "seen" in cap and str(cap["seen"]) in ("Default::default()", "HashSet::default()", "HashSet::new()")
+        SLICE = "SwapActionParams::%s(self)" % sl
+        good = len(oks) >= 1
+        how = []
+        for bb, e in oks:
+            tested = [_uniqueness_test(prog, f, c) for c, t in f.bool_guards(bb) if t is True]
+            hit = SLICE in tested
+            how.append("Ok exit under uniqueness test of %s" % [t for t in tested if t])
+            good = good and hit and str(e) == "Result::Ok{0: %s}" % SLICE
         n += 1
-        ctx.ob("validated-path:" + nm, a and b and c,
-               "validated_%s_swap_path returns Ok(%s()) only when all(|t| seen.insert(t)) is true over that slice (%s); closure = seen.insert(token) (%s) on a fresh set (%s)" % (nm, sl, a, b, c),
-               where=f.where())
+        ctx.ob("validated-path:" + nm, good,
+               "validated_%s_swap_path returns Ok(%s()) only on the true edge of the duplicate-free test (`iter().all(|t| seen.insert(t))` on a fresh set, inline or in a "
+               "private helper called on that same slice): %s" % (nm, sl, how), where=f.where())
     p = ctx.fn(US + "primary_swap_path")
     s = ctx.fn(US + "secondary_swap_path")
     if p is not None and s is not None:
